@@ -43,12 +43,12 @@ def _statuses(R):
     return out
 
 
-def _seed_overrides(ix, sid):
-    """texts of the files touched by seeded/<sid>/patch.diff after applying it to
+def _seed_overrides(ix, sid, corpus='seeded'):
+    """texts of the files touched by <corpus>/<sid>/patch.diff after applying it to
     copies of the current tree's files in a throw-away directory (never in /repo)"""
     import re, shutil, subprocess, tempfile
     here = os.path.dirname(os.path.dirname(os.path.abspath(__file__)))
-    pth = os.path.join(here, 'seeded', sid, 'patch.diff')
+    pth = os.path.join(here, corpus, sid, 'patch.diff')
     text = open(pth).read()
     rels = sorted(set(re.findall(r'^\+\+\+ b/(\S+)', text, flags=re.M)))
     tmp = tempfile.mkdtemp(prefix='sa-seed-')
@@ -83,9 +83,29 @@ def _one_seed(args):
     return (kind, sid, 'killed', ', '.join(fired))
 
 
+def _one_benign(args):
+    """a behaviour-preserving change (benign/<id>) that this property's check passed silently when benign/MATRIX.json
+    was last regenerated must still pass silently"""
+    kind, bid, _ = args
+    from .run import run_property
+    ix = _G['ix']
+    ov, why = _seed_overrides(ix, bid, corpus='benign')
+    if ov is None:
+        return (kind, bid, 'stale', why)
+    st, R = run_property(_G['prop'], 'quick', overrides=ov, quiet=True, base=ix, evidence=False)
+    base = _G['base']
+    now = _statuses(R)
+    changed = sorted({'%s %s' % (v, k[0]) for k, v in now.items() if v in (VIOL, ERR) and base.get(k) != v})
+    if changed:
+        return (kind, bid, 'false-alarm', ', '.join(changed))
+    return (kind, bid, 'silent', '')
+
+
 def _one(args):
     if args[0] == 'seed':
         return _one_seed(args)
+    if args[0] == 'benign':
+        return _one_benign(args)
     kind, name, rel, old, new, expect = args
     from .run import run_property
     ix = _G['ix']
@@ -187,6 +207,24 @@ def selftest(prop, mod, ix, R, seed=0):
                 seeds.append(('seed', sid, nf[prop]))
     jobs += seeds
     muts = muts + [(j[1],) for j in seeds]
+    # independent behaviour-preserving changes (benign/) that this check is on record as passing silently
+    bpath = os.path.join(here, 'benign', 'MATRIX.json')
+    benign = []
+    if os.path.exists(bpath):
+        bm = json.load(open(bpath))
+        for bid in sorted(bm):
+            v = bm[bid]
+            if v.get('applies') and prop not in v.get('violations', {}) and prop not in v.get('errors', {}) and \
+                    prop not in v.get('crash', {}) and os.path.exists(os.path.join(here, 'benign', bid, 'patch.diff')):
+                touched = open(os.path.join(here, 'benign', bid, 'patch.diff')).read()
+                files = getattr(mod, 'FILES', None)
+                # only the changes that touch a file this property analyses
+                import re as _re
+                rels = _re.findall(r'^\+\+\+ b/(\S+)', touched, flags=_re.M)
+                if files is None or any(r == f or r.startswith(f) for r in rels for f in files):
+                    benign.append(('benign', bid, None))
+    jobs += benign
+    eqs = eqs + [(j[1],) for j in benign]
     if not jobs:
         return {'variants': 0}
     _G.update(ix=ix, prop=prop, base=_statuses(R))
